@@ -32,6 +32,10 @@ func mBufElem(typ string) VMatch {
 }
 
 func runC12(p *Prog, r *Report) {
+	if want("C12.11") {
+		// the block tail is padded only when no header fits
+		ruleJournalTailPadding(p, r, "C12.11")
+	}
 	if want("C12.1") {
 		r.Begin("C12.1", "E-GUARD", "acceptance gates of journal.Reader.nextChunk: a chunk is accepted only if the header is present and non-zero, 1<=type<=4, the chunk ends inside the block, the CRC matches when checksums are on, and a record's first chunk has type full/first; Read/ReadByte continue into a following chunk only while the record is unfinished", 3)
 		if fn := resolveFn(p, r, "leveldb/journal", "(*Reader).nextChunk"); fn != nil {
